@@ -67,7 +67,7 @@ def main():
         })
     manifest = {
         "version": 1,
-        "setup_cmd": "python3-vt -c \"import ast, networkx, lark, jsonschema, sys; sys.path.insert(0, '/verif'); import xsa.core, xsa.cfg; print('xsa ready')\"",
+        "setup_cmd": "python3-vt -c \"import ast, networkx, lark, jsonschema, sympy, sys; sys.path.insert(0, '/verif'); import xsa.core, xsa.cfg; print('xsa ready')\"",
         "hooks": {
             "guard": "XDEPS_VERIF",
             "enable": "none: the checks are static and need no instrumentation of /repo (guard name reserved, unused)",
